@@ -1143,7 +1143,8 @@ def padleft_fn(
             )
         cnt = 0
     else:
-        cnt = int(cntstr)
+        # MediaWiki limits the padded length to 500 characters
+        cnt = min(int(cntstr), 500)
     if cnt - len(v) > len(pad) and len(pad) > 0:
         pad = pad * ((cnt - len(v)) // len(pad))
     if len(v) < cnt:
@@ -1168,7 +1169,8 @@ def padright_fn(
                 sortid="parserfns/940",
             )
     else:
-        cnt = int(cntstr)
+        # MediaWiki limits the padded length to 500 characters
+        cnt = min(int(cntstr), 500)
     if cnt - len(v) > len(pad) and len(pad) > 0:
         pad = pad * ((cnt - len(v)) // len(pad))
     if len(v) < cnt:
@@ -1463,7 +1465,10 @@ def pad_fn(
         )
         cnt = 0
     else:
-        cnt = int(cntstr)
+        # Same limit as padleft/padright; keeps hostile counts harmless
+        cnt = min(int(cntstr), 500)
+    if len(pad) == 0:
+        return v
     if cnt - len(v) > len(pad):
         pad = pad * ((cnt - len(v)) // len(pad) + 1)
     if len(v) < cnt:
